@@ -92,6 +92,11 @@ package cose
 // is skipped on the way back to the loop head), or the whole construction fails.
 //@ func cose.newRawHeaderMap
 //@   params unmarshaled
+//@   local data = extract0:call:cbor.Marshal#1
+//@   local err = extract1:call:cbor.Marshal#1
+//@   local label = extract1:Next#1
+//@   local marshaled = MakeMap#1
+//@   local v = extract2:Next#1
 //@   props C10(sweep) C13 C04(functional) C05(functional)
 //@   sweep bounds,panic,make,nilmem,div
 //@   callsites Marshal 1
